@@ -42,6 +42,21 @@ func c03Check(c *Ctx, iv interface{}, t reflect.Type) {
 		{"UnorderedMap+Indent", func() ([]byte, error) {
 			return json.MarshalIndentWithOption(iv, " ", "  ", json.UnorderedMap(), json.DisableHTMLEscape())
 		}},
+		{"Encoder(html off)", func() ([]byte, error) {
+			var b bytes.Buffer
+			e := json.NewEncoder(&b)
+			e.SetEscapeHTML(false)
+			err := e.Encode(iv)
+			return b.Bytes(), err
+		}},
+		{"Encoder(html off, indent)", func() ([]byte, error) {
+			var b bytes.Buffer
+			e := json.NewEncoder(&b)
+			e.SetEscapeHTML(false)
+			e.SetIndent("", "\t")
+			err := e.Encode(iv)
+			return b.Bytes(), err
+		}},
 		{"Encoder", func() ([]byte, error) {
 			var b bytes.Buffer
 			e := json.NewEncoder(&b)
@@ -125,7 +140,7 @@ func runC03(c *Ctx) {
 				try(append([]byte(nil), doc...))
 			}
 		})
-		c.Rep.Exhaustive = append(c.Rep.Exhaustive, fmt.Sprintf("%d marshaler results (all byte strings of length <= 3 over the 26-symbol alphabet, all string literals with a body of length <= 5 over the escape alphabet) in 5 positions x 8 entry points", n))
+		c.Rep.Exhaustive = append(c.Rep.Exhaustive, fmt.Sprintf("%d marshaler results (all byte strings of length <= 3 over the 26-symbol alphabet, all string literals with a body of length <= 5 over the escape alphabet) in 5 positions x 10 entry points", n))
 	}
 	c.RunCases("values", ntypes, func(c *Ctx, k int, rng *rand.Rand) {
 		g := &Gen{R: rng}
